@@ -114,13 +114,19 @@ fn main() {
             let results: Vec<std::sync::Mutex<Option<String>>> = (0..n).map(|_| std::sync::Mutex::new(None)).collect();
             let next = std::sync::atomic::AtomicUsize::new(0);
             std::thread::scope(|sc| {
-                for _ in 0..jobs.min(n.max(1)) {
-                    sc.spawn(|| loop {
+                for w in 0..jobs.min(n.max(1)) {
+                    let (next, cases, results, a, args) = (&next, &cases, &results, &a, &args);
+                    sc.spawn(move || loop {
                         let i = next.fetch_add(1, std::sync::atomic::Ordering::SeqCst);
                         if i >= n {
                             break;
                         }
+                        // breadcrumb: if the implementation takes the whole process down (stack overflow, allocation
+                        // failure, abort), the check finds the case that was running here
+                        let crumb = format!("{}.cur{}", args[5], w);
+                        let _ = std::fs::write(&crumb, &cases[i]);
                         let o = run_case(a.as_ref(), &cases[i]);
+                        let _ = std::fs::remove_file(&crumb);
                         *results[i].lock().unwrap() = Some(o);
                     });
                 }
@@ -138,7 +144,10 @@ fn main() {
                 if c.is_empty() || c.starts_with('#') {
                     continue;
                 }
+                let crumb = format!("{}.cur0", args[4]);
+                let _ = std::fs::write(&crumb, c);
                 let o = run_case(a.as_ref(), c);
+                let _ = std::fs::remove_file(&crumb);
                 writeln!(out, "{}\t{}", c, o).unwrap();
             }
         }
